@@ -11,7 +11,7 @@ import langcheck
 import modcorr
 
 PROFILE = dict(gates=6, mods=1, measure=3, reset=1, barrier=2, if_ct=1, if_meas=2, for_=2, switch=1, alias=1, assign=1, decl=1,
-               call=1, custom=2, phase=0, gate_phase=False)
+               call=1, custom=2, phase=1, gate_phase=False)
 FIXED_PROGRAMS = [
     # idle qubits in every position, a fully idle register, use only inside a conditional block, decomposed gates
     'OPENQASM 3.0;\ninclude "stdgates.inc";\nqubit[4] q;\nqubit[2] r;\nqubit[3] s;\nbit[3] c;\nu3(0.1, 0.2, 0.3) q[1];\ncx q[1], q[3];\nc[0] = measure q[3];\nif (c[0] == 1) {\n  x s[1];\n  barrier s[1];\n  c[1] = measure s[1];\n}\nreset q[3];\n',
@@ -23,6 +23,9 @@ FIXED_PROGRAMS = [
     'OPENQASM 3.0;\nqubit[5] a;\nqubit[3] b;\nqubit anc;\nbit[2] c;\ninclude "stdgates.inc";\ncx a[1], b[0];\ncrz(0.5) b[2], anc;\nccx a[4], b[1], anc;\nif (c[0] == 1) {\n  c[1] = measure a[4];\n  x b[0];\n}\n',
     # measurement and barrier inside loops and a subroutine, custom gate, broadcast
     'OPENQASM 3.0;\ninclude "stdgates.inc";\nqubit[3] q;\nqubit[2] r;\nbit[3] c;\ngate g(t) x, y { rx(t) x; cx x, y; }\ndef f(qubit[2] a) { barrier a; h a[1]; }\nfor int i in [0:1] {\n  c[i] = measure q[i];\n  barrier q[i];\n}\ng(0.5) q[0], q[2];\nf(r);\nh q;\n',
+    # statements the visitor rewrites while lowering them: modifiers on gphase and on gates, folded parameters, aliases, ranges
+    'OPENQASM 3.0;\ninclude "stdgates.inc";\nqubit[4] q;\nbit[2] c;\nconst int[8] n = 2;\npow(2) @ gphase(pi / 4);\ninv @ gphase(0.5);\npow(n) @ inv @ s q[0];\nlet a = q[1:3];\nrx(n * 0.25) a;\ninv @ pow(2) @ t q[n];\nctrl @ x q[0], q[3];\nh q[0:2];\nc[0] = measure q[n];\n',
+    'OPENQASM 3.0;\ninclude "stdgates.inc";\nqubit[3] q;\ngate g(t) x, y { pow(2) @ rx(t) x; inv @ s y; gphase(t); }\npow(2) @ gphase(0.25);\ninv @ g(0.5) q[0], q[1];\npow(2) @ g(0.25) q[1], q[2];\nnegctrl @ z q[0], q[2];\n',
 ]
 
 
